@@ -153,10 +153,12 @@ where
         if let Some(shard) = self.shard.take() {
             let mut shard = shard.write();
             match shard.entry(self.hash(), |p| self.key() == p.key(), |p| p.hash()) {
-                HashTableEntry::Occupied(o) => {
+                // Only remove the piece this reference stands for: a newer piece of the same key may have replaced it
+                // and must keep serving lookups until it is written itself.
+                HashTableEntry::Occupied(o) if std::ptr::eq(o.get().value(), self.piece.value()) => {
                     o.remove();
                 }
-                HashTableEntry::Vacant(_) => {}
+                HashTableEntry::Occupied(_) | HashTableEntry::Vacant(_) => {}
             }
         }
     }
